@@ -180,48 +180,7 @@ def run(chk, repo):
                "is mapped instead of rejected (or an exonic one rejected)", key=f.qual + f'::chain::{it}', fn=f.qual)
 
     # ------------------------------------------------------------------ d
-    chk.rule('C11.d', 'R-ORDER + R-LOCKSTEP: cache registers after load; eviction/insertion pairwise', 10)
-    for cls in ('GenePointerDict', 'TranscriptPointerDict'):
-        f = repo.func(f'gtf.GTFPointer:{cls}.__getitem__')
-        chk.uses(f)
-        cfg = CFG(f.node)
-        nodes = [n for n in cfg.nodes if n.kind == 'stmt']
-        fallible = [n.id for n in nodes if any(call_name(c) in ('get_pointer', 'load') for c in G.find_calls(n.ast))]
-        book = [n for n in nodes if any(w[0] == 'self' and ('_cached_keys' in unparse(w[2]) or '_cache' in unparse(w[2]))
-                                        for w in G.writes_in([n.ast]))]
-        for b in book:
-            ok = all(cfg.dominates(x, b.id) for x in fallible) and len(fallible) >= 2
-            chk.ob('C11.d', f"{cls}: '{norm_stmt(b.ast)}' follows get_pointer() and load()", repo.loc(f, b.ast), ok,
-                   f"cache bookkeeping '{norm_stmt(b.ast)}' can run before the fallible get_pointer()/load(): a miss leaves a ghost "
-                   "key and a later eviction raises KeyError for a valid key", key=f"{f.qual}::order::{norm_stmt(b.ast)}", fn=f.qual)
-        txt = [norm_stmt(n.ast) for n in nodes]
-        pops = [t for t in txt if '_cached_keys.pop()' in t]
-        evict = [t for t in txt if t.startswith('self._cache.pop(')]
-        okp = len(pops) == 1 and len(evict) == 1 and pops[0] == 'key_pop = self._cached_keys.pop()' and evict[0] == 'self._cache.pop(key_pop)'
-        chk.ob('C11.d', f"{cls}: eviction pops the same key from deque and dict", f.where, okp,
-               f"eviction statements {pops} / {evict} are not pairwise", key=f"{f.qual}::evict-pair", fn=f.qual)
-        ins = [t for t in txt if t.startswith('self._cache[') and '=' in t]
-        push = [t for t in txt if 'self._cached_keys.appendleft(' in t]
-        params = f.params()
-        k = params[1] if len(params) > 1 else '__key'
-        oki = ins == [f"self._cache[{k}] = val"] and push == [f"self._cached_keys.appendleft({k})"]
-        chk.ob('C11.d', f"{cls}: insertion registers the same key in deque and dict", f.where, oki,
-               f"insert statements {ins} / {push} are not pairwise", key=f"{f.qual}::insert-pair", fn=f.qual)
-        # the returned value is the loaded value on the miss path and the cached one on the hit path
-        rets = [unparse(n.ast.value) for n in nodes if isinstance(n.ast, ast.Return)]
-        chk.ob('C11.d', f"{cls}: returns cached value on hit, loaded value on miss", f.where,
-               sorted(rets) == sorted([f"self._cache[{k}]", 'val']), f"returns {rets}", key=f"{f.qual}::returns", fn=f.qual)
-        # caches are per instance
-        init = repo.func(f'gtf.GTFPointer:{cls}.__init__')
-        itxt = [norm_stmt(s) for s in init.node.body]
-        chk.ob('C11.d', f"{cls}: cache state is per instance", init.where,
-               'self._cache = {}' in itxt and 'self._cached_keys = deque()' in itxt,
-               'cache containers are not created per instance in __init__ (shared between dictionaries)', key=f"{init.qual}::per-instance", fn=init.qual)
-    for cq in ('gtf.GTFPointer:GTFPointerDict', 'gtf.GTFPointer:GenePointerDict', 'gtf.GTFPointer:TranscriptPointerDict'):
-        ci = repo.cls(cq)
-        shared = [norm_stmt(s) for s in ci.node.body if isinstance(s, (ast.Assign, ast.AnnAssign)) and '_cache' in unparse(s)]
-        chk.ob('C11.d', f"{ci.name}: no class-level cache attribute", f"{ci.module.relpath}:{ci.node.lineno}", not shared,
-               f"class-level cache state {shared} is shared by every dictionary instance", key=f"{cq}::class-level-cache")
+    cache_typestate(chk, repo, 'C11.d')
 
     # ------------------------------------------------------------------ e
     chk.rule('C11.e', 'R-KEYS: GTF / index writer-reader agreement', 8)
@@ -316,3 +275,50 @@ def run(chk, repo):
            'TranscriptPointer.load does not sort records', key=ld.qual + '::sort', fn=ld.qual)
     chk.ob('C11.f', 'in-memory loader sorts records', dg.where, '.sort_records()' in unparse(dg.node),
            'dump_gtf does not sort records', key=dg.qual + '::sort', fn=dg.qual)
+
+
+def cache_typestate(chk, repo, rid):
+    """R-ORDER + R-LOCKSTEP on the pointer-dict caches (shared by C11.d and C15.c)."""
+    chk.rule(rid, 'R-ORDER + R-LOCKSTEP: cache registers after load; eviction/insertion pairwise', 10)
+    for cls in ('GenePointerDict', 'TranscriptPointerDict'):
+        f = repo.func(f'gtf.GTFPointer:{cls}.__getitem__')
+        chk.uses(f)
+        cfg = CFG(f.node)
+        nodes = [n for n in cfg.nodes if n.kind == 'stmt']
+        fallible = [n.id for n in nodes if any(call_name(c) in ('get_pointer', 'load') for c in G.find_calls(n.ast))]
+        book = [n for n in nodes if any(w[0] == 'self' and ('_cached_keys' in unparse(w[2]) or '_cache' in unparse(w[2]))
+                                        for w in G.writes_in([n.ast]))]
+        for b in book:
+            ok = all(cfg.dominates(x, b.id) for x in fallible) and len(fallible) >= 2
+            chk.ob(rid, f"{cls}: '{norm_stmt(b.ast)}' follows get_pointer() and load()", repo.loc(f, b.ast), ok,
+                   f"cache bookkeeping '{norm_stmt(b.ast)}' can run before the fallible get_pointer()/load(): a miss leaves a ghost "
+                   "key and a later eviction raises KeyError for a valid key", key=f"{f.qual}::order::{norm_stmt(b.ast)}", fn=f.qual)
+        txt = [norm_stmt(n.ast) for n in nodes]
+        pops = [t for t in txt if '_cached_keys.pop()' in t]
+        evict = [t for t in txt if t.startswith('self._cache.pop(')]
+        okp = len(pops) == 1 and len(evict) == 1 and pops[0] == 'key_pop = self._cached_keys.pop()' and evict[0] == 'self._cache.pop(key_pop)'
+        chk.ob(rid, f"{cls}: eviction pops the same key from deque and dict", f.where, okp,
+               f"eviction statements {pops} / {evict} are not pairwise", key=f"{f.qual}::evict-pair", fn=f.qual)
+        ins = [t for t in txt if t.startswith('self._cache[') and '=' in t]
+        push = [t for t in txt if 'self._cached_keys.appendleft(' in t]
+        params = f.params()
+        k = params[1] if len(params) > 1 else '__key'
+        oki = ins == [f"self._cache[{k}] = val"] and push == [f"self._cached_keys.appendleft({k})"]
+        chk.ob(rid, f"{cls}: insertion registers the same key in deque and dict", f.where, oki,
+               f"insert statements {ins} / {push} are not pairwise", key=f"{f.qual}::insert-pair", fn=f.qual)
+        # the returned value is the loaded value on the miss path and the cached one on the hit path
+        rets = [unparse(n.ast.value) for n in nodes if isinstance(n.ast, ast.Return)]
+        chk.ob(rid, f"{cls}: returns cached value on hit, loaded value on miss", f.where,
+               sorted(rets) == sorted([f"self._cache[{k}]", 'val']), f"returns {rets}", key=f"{f.qual}::returns", fn=f.qual)
+        # caches are per instance
+        init = repo.func(f'gtf.GTFPointer:{cls}.__init__')
+        itxt = [norm_stmt(s) for s in init.node.body]
+        chk.ob(rid, f"{cls}: cache state is per instance", init.where,
+               'self._cache = {}' in itxt and 'self._cached_keys = deque()' in itxt,
+               'cache containers are not created per instance in __init__ (shared between dictionaries)', key=f"{init.qual}::per-instance", fn=init.qual)
+    for cq in ('gtf.GTFPointer:GTFPointerDict', 'gtf.GTFPointer:GenePointerDict', 'gtf.GTFPointer:TranscriptPointerDict'):
+        ci = repo.cls(cq)
+        shared = [norm_stmt(s) for s in ci.node.body if isinstance(s, (ast.Assign, ast.AnnAssign)) and '_cache' in unparse(s)]
+        chk.ob(rid, f"{ci.name}: no class-level cache attribute", f"{ci.module.relpath}:{ci.node.lineno}", not shared,
+               f"class-level cache state {shared} is shared by every dictionary instance", key=f"{cq}::class-level-cache")
+
